@@ -175,3 +175,76 @@ def c07(run, tier):
                     elif cls == "Panic": run.violation({"solver": sname, "what": "panic", "goal": op["goal"], "text": rr.get("text", "")[:60]}, rp)
                     else: run.traces += 1
     run.extra["programs"] = len(keys)
+
+# ------------------------------------------------------------------------------------ C21
+def fty(f):
+    return {"SetT": "Set<T>", "SetU": "Set<U>", "T": "T", "U": "U", "SetA": "Set<A>", "SetB": "Set<B>", "SetSetT": "Set<Set<T>>"}[f]
+
+def render_wf(p):
+    out = ["trait Hash {}", "trait Eq%s {}" % (" where Self: Hash" if p["eqSuper"] else ""), "struct A {}", "struct B {}",
+           "struct Set<T>%s {}" % (" where T: Hash" if p["setBound"] else "")]
+    wcs = [w for w, on in (("T: Hash", p["hT"]), ("U: Hash", p["hU"])) if on]
+    out.append("struct Holder<T, U>%s { %s }" % ((" where " + ", ".join(wcs)) if wcs else "", ", ".join("f%d: %s" % (i, fty(f)) for i, f in enumerate(p["fields"]))))
+    if p["hashA"]: out.append("impl Hash for A {}")
+    if p["hashB"]: out.append("impl Hash for B {}")
+    if p["hashSet"]: out.append("impl<T> Hash for Set<T>%s {}" % (" where T: Hash" if p["hashSet"] == 2 else ""))
+    if p["eqA"]: out.append("impl Eq for A {}")
+    if p["eqB"]: out.append("impl Eq for B {}")
+    if p["eqSet"]: out.append("impl<T> Eq for Set<T>%s {}" % (" where T: Hash" if p["eqSet"] == 2 else ""))
+    return " ".join(out)
+
+def sample_wf(n, rnd):
+    kinds = ["SetT", "SetU", "T", "U", "SetA", "SetB", "SetSetT"]
+    out, seen = [], set()
+    while len(out) < n:
+        p = {"setBound": rnd.random() < 0.8, "eqSuper": rnd.random() < 0.6, "hashA": rnd.random() < 0.7, "hashB": rnd.random() < 0.4,
+             "hashSet": rnd.choice([0, 1, 2, 2]), "eqA": rnd.random() < 0.5, "eqB": rnd.random() < 0.3, "eqSet": rnd.choice([0, 1, 2]),
+             "hT": rnd.random() < 0.5, "hU": rnd.random() < 0.4, "fields": [rnd.choice(kinds) for _ in range(rnd.choice([1, 2, 3, 3]))]}
+        k = json.dumps(p, sort_keys=True)
+        if k in seen: continue
+        seen.add(k); out.append(p)
+    return out
+
+@prop("C21")
+def c21(run, tier):
+    import os
+    run.rule = ("programs of WfMC.tla's family (supertrait bound on/off, struct where-clause on/off, struct with up to three fields of seven kinds incl. repeated and "
+                "nested ones and any subset of its where-clauses, impls with / without the bounds they need) are sampled by seed; TLC computes Sound(P) -- the "
+                "property's statement evaluated on all concrete types of the bounded universe -- and Accepts(P), and checks CheckerSound (Accepts => Sound); the real "
+                "checked_program() under both solvers must not accept a program with ~Sound(P) and must not panic; acceptance of a program the specification's "
+                "Accepts rejects (or the converse) is counted but is not a violation by itself; non-trivial = ~Sound(P) or the program is accepted; distinct = (program, solver)")
+    run.assumptions = ["no auto traits, built-in traits or associated types; concrete types of depth <= 2 over A, B, Set<_>, Holder<_, _>",
+                       "trusted: TLC, the renderer render_wf, the meaning (Hash / Eq / WfTy) of WfMC.tla"]
+    n = 4000 if tier == "thorough" else 500
+    progs = sample_wf(n, random.Random(seed() * 23 + 11))
+    os.makedirs(tlc.WORK, exist_ok=True)
+    inp = os.path.join(tlc.WORK, "inputs_C21.ndjson")
+    with open(inp, "w") as f:
+        for p in progs: f.write(json.dumps(p) + "\n")
+    r = run_tlc_mc(run, "WfMC", "SPECIFICATION Spec\nINVARIANTS CheckerSound Replay\nCHECK_DEADLOCK FALSE\n", "C21", env={"INPUTS": inp}, workers=8, timeout=1800)
+    if r is None: return
+    os.unlink(inp)
+    recs = gc.parse_replay(r)
+    differ = 0
+    for solver in (gc.SLG, gc.REC):
+        sname = gc.solver_name(solver)
+        jobs = [{"id": i, "program": render_wf(x["p"]), "solver": solver, "queries": ["checked"]} for i, x in enumerate(recs)]
+        obs = harness.run("lower", jobs, timeout=300)
+        for x, job, o in zip(recs, jobs, obs):
+            rp = {"program": job["program"], "solver": solver, "spec": {"accepts": x["accepts"], "sound": x["sound"], "part1": x["sound1"], "part2": x["sound2"]}, "observed": o}
+            if o.get("error"):
+                run.case([job["program"], sname]); run.violation({"solver": sname, "what": "abort-or-hang", "detail": str(o["error"])[:80]}, rp); continue
+            res = o["results"]["checked"]
+            accepted = res["r"] == "ok"
+            run.case([job["program"], sname], nontrivial=(not x["sound"]) or accepted)
+            if res["r"] == "panic":
+                run.violation({"solver": sname, "what": "checked_program panics", "text": res["text"][:80]}, rp); continue
+            if res["r"] == "err" and "well-formedness" not in res["text"]:
+                raise ToolError("C21 program rejected for another reason: %s: %s" % (job["program"], res["text"]))
+            if accepted and not x["sound"]:
+                run.violation({"solver": sname, "what": "an accepted program breaks the guarantee of well-formedness checking",
+                               "part": "supertrait bound" if not x["sound1"] else "field type of a well-formed struct instance"}, rp)
+            else: run.traces += 1
+            if accepted != x["accepts"]: differ += 1
+            if not x["sound"]: run.sample({"program": job["program"][60:], "solver": sname, "sound": False, "accepted": accepted, "error": res["text"][:70]}, cap=6)
+    run.extra["programs"] = len(recs); run.extra["verdicts_differing_from_the_specifications_checker_model"] = differ
